@@ -500,9 +500,84 @@ where
     }
 }
 
+/// (d) The library's named constructors (serial and multithreaded): a measurement OUTSIDE the range the
+/// caller configured is offered to the constructor-built client; whenever sharding succeeds and all
+/// constructor-built aggregators finish, the unsharded single-report result must be a valid measurement for
+/// the REQUESTED parameters (reference predicate on plain integers). Parameters are pairwise distinct, so
+/// an instance built with transposed or otherwise wrong arguments admits something the request forbids.
+fn ctor_layer(run: &Run, tape: &Tape) {
+    use prio::vdaf::{Aggregator, Client, Collector};
+    fn go<V, R: std::fmt::Debug>(run: &Run, tape: &Tape, name: &str, vdaf: Result<V, prio::vdaf::VdafError>, meas: Vec<V::Measurement>, valid: impl Fn(&R) -> bool)
+    where
+        V: Client<16> + Aggregator<32, 16, AggregationParam = ()> + Collector<AggregateResult = R>,
+        V::Measurement: std::fmt::Debug,
+        V::VerifyState: Encode + for<'a> ParameterizedDecode<(&'a V, usize)>,
+    {
+        let vdaf = match vdaf {
+            Ok(v) => v,
+            Err(e) => {
+                run.fail(&format!("ctor/{name}/new"), &format!("{name} refused admissible parameters: {e}"), json!({"ctor": name}));
+                return;
+            }
+        };
+        for (mi, m) in meas.iter().enumerate() {
+            run.count("evaluations", 1);
+            run.count("constructor_out_of_range_measurements", 1);
+            let nonce: [u8; 16] = tape.array(600 + mi as u64);
+            let vk: [u8; 32] = tape.array(601);
+            let sharded = match pvh::engine::catch(|| vdaf.shard(b"c02 ctor", m, &nonce)) {
+                Ok(Ok(x)) => x,
+                Ok(Err(_)) => continue, // refused at the client: nothing reaches the aggregators
+                Err(_) => continue,     // a panic here is C16's subject
+            };
+            let Ok((outs, _)) = verify_report::<V, 32>(&vdaf, &vk, b"c02 ctor", &(), &nonce, &sharded.0, &sharded.1, &VerifyOpts::wire()) else { continue };
+            let n = outs.len();
+            let mut aggs = vec![];
+            for a in 0..n {
+                match vdaf.aggregate(&(), [outs[a].clone()]) {
+                    Ok(s) => aggs.push(s),
+                    Err(_) => break,
+                }
+            }
+            if aggs.len() != n {
+                continue;
+            }
+            if let Ok(Ok(r)) = pvh::engine::catch(|| vdaf.unshard(&(), aggs, 1)) {
+                if !valid(&r) {
+                    run.fail(&format!("ctor/{name}/out_of_range_accepted"), &format!("{name}: the out-of-range measurement {:?} was sharded, verified by all {n} aggregators and aggregated to {:?}, which is not a valid measurement for the requested parameters", m, r), json!({"ctor": name, "measurement": format!("{:?}", m)}));
+                    return;
+                }
+            }
+        }
+        run.distinct(fnv(format!("ctor/{name}").as_bytes()));
+    }
+    for na in [2u8, 3] {
+        go(run, tape, &format!("new_sum({na},max=5)"), Prio3::new_sum(na, 5), vec![6u64, 7, 8, 255, u64::MAX], |r: &u64| *r <= 5);
+        go(run, tape, &format!("new_average({na},max=5)"), Prio3::new_average(na, 5), vec![6u128, 7, 8, 1 << 70], |r: &f64| *r <= 5.0);
+        let sv = |r: &Vec<u128>| r.len() == 4 && r.iter().all(|x| *x <= 2);
+        let svm: Vec<Vec<u128>> = vec![vec![3, 0, 0, 0], vec![0, 0, 0, 3], vec![2, 2, 2, 4], vec![7, 7, 7, 7], vec![1, 1, 1], vec![1, 1, 1, 1, 1], vec![u128::MAX, 0, 0, 0]];
+        go(run, tape, &format!("new_sum_vec({na},max=2,len=4,chunk=3)"), Prio3::new_sum_vec(na, 2, 4, 3), svm.clone(), sv);
+        go(run, tape, &format!("new_sum_vec_multithreaded({na},max=2,len=4,chunk=3)"), Prio3::new_sum_vec_multithreaded(na, 2, 4, 3), svm, sv);
+        let hv = |r: &Vec<u128>| r.len() == 5 && r.iter().all(|x| *x <= 1) && r.iter().sum::<u128>() == 1;
+        let hm: Vec<usize> = vec![5, 6, 7, 8, 255, usize::MAX];
+        go(run, tape, &format!("new_histogram({na},len=5,chunk=2)"), Prio3::new_histogram(na, 5, 2), hm.clone(), hv);
+        go(run, tape, &format!("new_histogram_multithreaded({na},len=5,chunk=2)"), Prio3::new_histogram_multithreaded(na, 5, 2), hm, hv);
+        // 8 buckets, at most 2 set, chunk length 3 (and 5): weights 3..8 are out of range
+        let mv = |r: &Vec<u128>| r.len() == 8 && r.iter().all(|x| *x <= 1) && r.iter().sum::<u128>() <= 2;
+        let mm: Vec<Vec<bool>> = (3..=8usize).map(|w| (0..8).map(|i| i < w).collect()).chain([(0..8).map(|i| i >= 5).collect(), vec![true; 7], vec![true; 9]]).collect();
+        for chunk in [3usize, 5] {
+            go(run, tape, &format!("new_multihot_count_vec({na},len=8,max_weight=2,chunk={chunk})"), Prio3::new_multihot_count_vec(na, 8, 2, chunk), mm.clone(), mv);
+            go(run, tape, &format!("new_multihot_count_vec_multithreaded({na},len=8,max_weight=2,chunk={chunk})"), Prio3::new_multihot_count_vec_multithreaded(na, 8, 2, chunk), mm.clone(), mv);
+        }
+        let lv = |r: &Vec<u128>| r.len() == 4 && r.iter().sum::<u128>() <= 6;
+        let lm: Vec<Vec<u128>> = vec![vec![6, 1, 0, 0], vec![2, 2, 2, 1], vec![7, 0, 0, 0], vec![6, 6, 6, 6], vec![0, 0, 0, 8], vec![3, 3, 3], vec![1, 1, 1, 1, 3]];
+        go(run, tape, &format!("new_l1_bound_sum({na},max=6,len=4,chunk=5)"), Prio3::new_l1_bound_sum(na, 6, 4, 5), lm, lv);
+    }
+}
+
 fn main() {
     let run = Run::from_args("C02", Level::FaultEnumeration);
-    run.rule("(a) small-field FLP: every invalid input x every randomness (exact counts vs soundness bound), every adversarial proof for Count/GF(17); (b) Prio3: invalid-encoding menu (non-bits at boundary positions, bit flips, affine-preserving pairs, constants; all of F^n for tiny instances) with honest proofs x aggregators x proofs x key/nonce tapes, decision compared with the specification's for the derived randomness; (c) every byte of every message x alteration alphabet, pairs, verifier-share list manipulations. distinct = distinct (instance, input, key) reports in (b) and distinct alterations in (c); non-trivial = the report was decoded and reached verify_init");
+    run.rule("(a) small-field FLP: every invalid input x every randomness (exact counts vs soundness bound), every adversarial proof for Count/GF(17); (b) Prio3: invalid-encoding menu (non-bits at boundary positions, bit flips, affine-preserving pairs, constants; all of F^n for tiny instances) with honest proofs x aggregators x proofs x key/nonce tapes, decision compared with the specification's for the derived randomness; (c) every byte of every message x alteration alphabet, pairs, verifier-share list manipulations; (d) every named constructor (serial and multithreaded, pairwise distinct parameters) x out-of-range measurements: whatever is sharded, verified and aggregated must be valid for the requested parameters. distinct = distinct (instance, input, key) reports in (b) and distinct alterations in (c); non-trivial = the report was decoded and reached verify_init");
     run.assume("deployed fields: an invalid encoding / a single-byte alteration passing the proof system has probability ~2^-57 per case and is reported as a violation");
     run.assume("(b) uses the library FLP on the whole input as predictor; the FLP itself is decided by C05");
     let q = run.quick();
@@ -563,6 +638,8 @@ fn main() {
     build::<FieldV12289, _>(&Spec::Histogram { len: 3, chunk: 2 }, ls(vec![2, 3], vec![1], TamperLevel::Light, nks, false)).unwrap();
     build::<FieldV12289, _>(&Spec::L1 { max: 2, len: 2, chunk: 2 }, ls(vec![2], vec![1, 2], TamperLevel::None, nks, false)).unwrap();
     eprintln!("[{:.1}s] small fields", run.elapsed());
+    ctor_layer(&run, &Tape::Seeded(run.seed ^ 0xC702));
+    eprintln!("[{:.1}s] named constructors", run.elapsed());
     let t = tally.lock().unwrap();
     run.note("outcomes_by_stage", json!(t.by_stage));
     run.note("small_field_false_accepts_predicted_by_spec", json!(t.legit_false_accepts));
